@@ -360,7 +360,7 @@ func (p *Program) exprD(v ssa.Value, d int) string {
 		}
 		return x.Value.ExactString()
 	case *ssa.Parameter:
-		return "$" + x.Name()
+		return "$" + p.paramName(x)
 	case *ssa.FreeVar:
 		return "^" + x.Name()
 	case *ssa.Global:
@@ -424,6 +424,39 @@ func (p *Program) exprD(v ssa.Value, d int) string {
 		}
 		return s + "]"
 	case *ssa.Alloc:
+		// a parameter spilled to a cell (its address is taken) keeps the parameter's canonical name
+		if x.Referrers() != nil {
+			for _, ref := range *x.Referrers() {
+				if st, ok := ref.(*ssa.Store); ok && st.Addr == ssa.Value(x) {
+					if par, ok := st.Val.(*ssa.Parameter); ok && par.Name() == x.Comment {
+						// in an inlined helper the parameter is a copy of the argument
+						if rv := p.resolve(par); rv != ssa.Value(par) && d > 1 {
+							if inner := p.exprD(rv, d-1); strings.HasPrefix(inner, "copy(") {
+								return "&" + inner // a copy of a copy
+							} else {
+								return "&copy(" + inner + ")"
+							}
+						}
+						return "&alloc(" + p.paramName(par) + ")"
+					}
+				}
+			}
+		}
+		// a local that is assigned exactly once as a whole (g := rec.groups[i]) is named by what it is a copy of,
+		// not by its variable name
+		if x.Referrers() != nil && d > 1 {
+			var whole []*ssa.Store
+			for _, ref := range *x.Referrers() {
+				if st, ok := ref.(*ssa.Store); ok && st.Addr == ssa.Value(x) {
+					whole = append(whole, st)
+				}
+			}
+			if len(whole) == 1 {
+				if _, isPar := whole[0].Val.(*ssa.Parameter); !isPar {
+					return "&copy(" + p.exprD(whole[0].Val, d-1) + ")"
+				}
+			}
+		}
 		return "&alloc(" + x.Comment + ")"
 	case *ssa.Phi:
 		return "φ" + x.Comment
@@ -911,7 +944,12 @@ func (p *Program) relOf(g guard) rel {
 			if !pol {
 				op = negOp[op]
 			}
-			return rel{p.expr(b.X), op, p.expr(b.Y)}
+			x, y := p.expr(b.X), p.expr(b.Y)
+			// canonical orientation: a constant operand goes to the right (0 < len(x) reads len(x) > 0)
+			if isConstRendering(x) && !isConstRendering(y) {
+				x, y, op = y, x, flipOp[op]
+			}
+			return rel{x, op, y}
 		}
 	}
 	if pol {
@@ -1181,11 +1219,40 @@ func (p *Program) isResultOf(v ssa.Value, call ssa.Value, k int) bool {
 // paramNamed returns the parameter of fn with the given name.
 func paramNamed(fn *ssa.Function, name string) *ssa.Parameter {
 	for _, pa := range fn.Params {
+		if activeProg != nil {
+			if activeProg.paramName(pa) == name {
+				return pa
+			}
+			continue
+		}
 		if pa.Name() == name {
 			return pa
 		}
 	}
 	return nil
+}
+
+// paramName is the name a parameter is rendered with: for a function that existed on the pinned tree and still has
+// the same number of parameters, the name the parameter at that position had there (known_params.txt) — renaming a
+// parameter or receiver is invisible to the rules; otherwise its current name.
+func (p *Program) paramName(x *ssa.Parameter) string {
+	fn := x.Parent()
+	if fn == nil {
+		return x.Name()
+	}
+	names, ok := knownParams[p.fnName(fn)]
+	if !ok || len(names) != len(fn.Params) {
+		return x.Name()
+	}
+	for k, q := range fn.Params {
+		if q == x {
+			if names[k] == "_" || names[k] == "" {
+				return x.Name()
+			}
+			return names[k]
+		}
+	}
+	return x.Name()
 }
 
 // fieldName of a FieldAddr.
@@ -1464,4 +1531,57 @@ func (p *Program) fieldOfValue(v ssa.Value, field int, d int) ([]ssa.Value, bool
 		return out, len(out) > 0
 	}
 	return nil, false
+}
+
+// isConstRendering: the rendered operand is a literal (number, string, nil, true/false).
+func isConstRendering(s string) bool {
+	if s == "nil" || s == "true" || s == "false" || s == "" {
+		return true
+	}
+	c := s[0]
+	return c == '"' || c == '-' || (c >= '0' && c <= '9')
+}
+
+// is reports whether the relation is x op y, in either orientation.
+func (r rel) is(x, op, y string) bool {
+	return (r.X == x && r.Op == op && r.Y == y) || (r.X == y && flipOp[r.Op] == op && r.Y == x)
+}
+
+// isEq reports whether v is the comparison a == b of the two rendered operands, in either order.
+func (p *Program) isEq(v ssa.Value, a, b string) bool {
+	bo, ok := p.resolve(v).(*ssa.BinOp)
+	if !ok || bo.Op != token.EQL {
+		return false
+	}
+	x, y := p.expr(bo.X), p.expr(bo.Y)
+	return (x == a && y == b) || (x == b && y == a)
+}
+
+// resultCellIndex: addr (an Alloc, or a free variable bound to one) is the cell of a named result of fn; returns
+// its index, -1 otherwise. The cell is recognised by the returns of fn loading it at that position.
+func (p *Program) resultCellIndex(addr ssa.Value, fn *ssa.Function) int {
+	// a pointer parameter of a function that is only ever deferred with the address of a cell (defer f(&buf, &err))
+	if par, ok := addr.(*ssa.Parameter); ok && par.Parent() != nil {
+		if ci := p.callerIndex()[par.Parent()]; ci != nil && !ci.valueUse && len(ci.sites) == 1 {
+			if d, ok := ci.sites[0].(*ssa.Defer); ok {
+				for k, q := range par.Parent().Params {
+					if q == par && k < len(d.Common().Args) {
+						addr = d.Common().Args[k]
+					}
+				}
+			}
+		}
+	}
+	ci := p.cellOf(addr)
+	if ci == nil || fn == nil {
+		return -1
+	}
+	for _, ret := range returnsOf(fn) {
+		for k, rs := range ret.Results {
+			if u, ok := rs.(*ssa.UnOp); ok && p.cellOf(u.X) == ci {
+				return k
+			}
+		}
+	}
+	return -1
 }
